@@ -1,4 +1,5 @@
 import TD.C20.Lemmas
+import TD.C20.LemDat
 
 /-!
 # C20 — file type identification recognises every supported format and never crashes
@@ -381,9 +382,6 @@ example : PadNumField 4 [48, 48, 49, 48] ∧ PadNumField 5 [48, 52, 48, 57, 54] 
 
 /-! ## Recognition: DAT -/
 
-/-- printable ASCII text (`string.printable`) -/
-def Printable (b : Bytes) : Prop := ∀ x ∈ b, (9 ≤ x ∧ x ≤ 13) ∨ (32 ≤ x ∧ x ≤ 126)
-
 /-- **DAT, relative to the trial parse** (`_partial`: `DAT_parser.can_parse_file` is the abstract `datP`).  A printable
 ASCII text of at least 12 bytes that starts with a channel mnemonic character (`A-Z0-9`), whose fifth byte is not `V`
 (its first line does not imitate a storage unit label: `0001V1 00RECORD …` would be taken for RP66V1, which comes first
@@ -427,6 +425,80 @@ example : Printable [85, 84, 73, 77, 32, 85, 110, 105, 120, 32, 84, 105, 109, 10
   · unfold Printable; decide
   · decide
 
+
+/-- **DAT text, any leading blanks, any length** (relative to the trial parse `datP`): a printable ASCII text whose first
+non-blank byte is a channel mnemonic character, whose fifth byte is not `V`, and which the trial parse accepts is `DAT`. -/
+theorem dat_text_identified (lisT : Bytes → LisRes) (datP : Bytes → Bool) (b : Bytes) (c : Nat) (r : Bytes)
+    (hp : Printable b) (hd : b.dropWhile isWs = c :: r) (hc : (65 ≤ c ∧ c ≤ 90) ∨ (48 ≤ c ∧ c ≤ 57))
+    (h4 : byteAt b 4 ≠ 86) (hdat : datP b = true) : identify lisT datP b = "DAT" := by
+  have hhead : ∀ x, b.head? = some x → isWs x = true ∨ x = c := by
+    intro x hx
+    cases b with
+    | nil => simp at hx
+    | cons y t =>
+      have : y = x := by simpa using hx
+      subst this
+      by_cases hw : isWs y = true
+      · exact Or.inl hw
+      · right
+        have hw' : isWs y = false := by simpa using hw
+        have := hd
+        rw [List.dropWhile_cons_of_neg (by simp [hw'])] at this
+        exact (List.cons.inj this).1
+  have h60 : b.head? ≠ some 60 := by
+    intro h; rcases hhead 60 h with h' | h'
+    · simp [isWs] at h'
+    · omega
+  have h37 : b.head? ≠ some 37 := by
+    intro h; rcases hhead 37 h with h' | h'
+    · simp [isWs] at h'
+    · omega
+  rw [identify_skip_magic_pr lisT datP b hp h60 h37]
+  have hbit := bit_fail_printable b hp
+  have hlas : ∀ pfx, lasTest pfx b = "" := fun pfx => las_fail pfx b c r hd (by omega) (by omega)
+  have hv1 := rp66v1Test_fail b h4
+  have ht := rp66v1Tif_fail_printable b hp
+  have htr := rp66v1TifR_fail_printable b hp
+  have hv2 := rp66v2_fail b h4
+  have hall : b.all (fun c => decide (c < 128)) = true := by
+    rw [List.all_eq_true]; intro x hx; have := hp x hx; simp; omega
+  have hdt : datTest datP b = "DAT" := by simp [datTest, hall, hdat]
+  simp only [tests, List.filter, isMagic, Bool.not_true, Bool.not_false, firstMatch, runTest, hbit, hlas, hv1, ht, htr, hv2, hdt]
+  rfl
+
+/-- **DAT — every file of the C14 printer, in every layout.**  For every well-formed DAT content `f` (declarations in any
+order, `UTIM DATE TIME` + at least one further channel, rows) with at least one data row, printed by `TD.C14.Spec.print`
+in *any* layout (blanks around and between tokens, leading blanks, either date spelling, optional final newline), the
+file is identified as `DAT` — with the trial parse being the C14 model of `DAT_parser.can_parse_file`
+(`datParse`, proved to accept the file: `canParse_print`) and whatever the LIS deep test would say.
+The one hypothesis beyond well-formedness: the fifth byte of the file is not `V`.  It excludes texts whose first line
+imitates a storage unit label — a *well-formed* DAT file that declares a channel named `1V1` as
+`   1V1 00RECORD 8192 … ` (60 more printable bytes) is identified as `RP66V1` by the code, because `_rp66v1` comes
+first and `.` in `V1.` matches any character (confirmed on the implementation; see notes).  The hypothesis holds e.g.
+whenever the file starts with `UTIM` (`dat_identified_utim_first`). -/
+theorem dat_identified (lisT : Bytes → LisRes) (f : TD.C14.Spec.File) (hwf : f.wf) (hrows : f.rows ≠ [])
+    (h4 : byteAt (TD.C14.Spec.print f) 4 ≠ 86) :
+    identify lisT datParse (TD.C14.Spec.print f) = "DAT" := by
+  obtain ⟨lead, a, W, hpr, hblank, ha⟩ := print_head f hwf
+  have ha' : (65 ≤ a ∧ a ≤ 90) ∨ (48 ≤ a ∧ a ≤ 57) := by
+    simpa [TD.C14.isUpperDigit] using ha
+  have hws : isWs a = false := by simp [isWs]; omega
+  exact dat_text_identified lisT datParse _ a W (print_printable f hwf)
+    (by rw [hpr]; exact dropWhile_blank_prefix lead a W hblank hws) ha' h4 (datParse_print f hwf hrows)
+
+/-- the usual case: the first line declares `UTIM` without leading blanks — byte 4 is the separator after it -/
+theorem dat_identified_utim_first (lisT : Bytes → LisRes) (f : TD.C14.Spec.File) (hwf : f.wf) (hrows : f.rows ≠ [])
+    (rest : TD.C14.Str) (hstart : TD.C14.Spec.print f = 85 :: 84 :: 73 :: 77 :: rest) (hsep : rest.head? ≠ some 86) :
+    identify lisT datParse (TD.C14.Spec.print f) = "DAT" := by
+  apply dat_identified lisT f hwf hrows
+  rw [hstart]
+  cases rest with
+  | nil => simp [byteAt]
+  | cons x t => simpa [byteAt] using hsep
+
+/-- the C14 example file (declarations out of order, tabs, both date spellings) is identified as DAT -/
+example : identify (fun _ => .none) datParse (TD.C14.Spec.print TD.C14.exFile) = "DAT" :=
+  dat_identified _ TD.C14.exFile TD.C14.exFile_wf (by decide) (by decide)
 
 /-! ## Recognition: LAS -/
 
